@@ -79,6 +79,37 @@ m("c17-rr-off-by-one", "src/connectors/loadbalance.rs", "        let next = &sel
 
 m("c17-hash-mixes-port", "src/connectors/loadbalance.rs", '        let ctx = create_context(ctx.read().await.props().clone());\n        let result = self.hash_by.as_ref().unwrap().real_value_of(ctx.into())?;\n        let mut hasher = std::collections::hash_map::DefaultHasher::new();\n        use std::hash::Hasher;\n        result.hash(&mut hasher);', '        let cid = ctx.read().await.props().source.port();\n        let ctx = create_context(ctx.read().await.props().clone());\n        let result = self.hash_by.as_ref().unwrap().real_value_of(ctx.into())?;\n        let mut hasher = std::collections::hash_map::DefaultHasher::new();\n        use std::hash::Hasher;\n        result.hash(&mut hasher);\n        cid.hash(&mut hasher);', ["C17"])
 
+# ---- C01 / C04 / C16 (in-process relay)
+m("c01-skip-client-drain", "src/copy.rs", "        let len = drain_buffers(&mut client, &mut server)\n            .await\n            .context(\"failed to drain client buffers\")?;", "        let len = 0usize;", ["C01"])
+m("c01-short-write-on-full-buffer", "src/copy.rs", "dst.stream.as_mut().unwrap().write_all(&sbuf[..len]).await", "dst.stream.as_mut().unwrap().write_all(&sbuf[..if len == params.buffer_size && len > 1 { len - 1 } else { len }]).await", ["C01"])
+m("c01-drain-server-to-server", "src/copy.rs", "        let len = drain_buffers(&mut server, &mut client)", "        let len = drain_buffers(&mut client, &mut server)", ["C01"])
+m("c04-no-shutdown", "src/copy.rs", "    if let Some(mut s) = dst.stream {\n        s.shutdown()\n            .await\n            .with_context(|| format!(\"shutdown {})\", dst.name))?;\n    }", "    let _ = &dst.stream;", ["C04"])
+m("c04-return-on-first-eof", "src/copy.rs", "    while c2s.is_none() || s2c.is_none() {", "    while c2s.is_none() && s2c.is_none() {", ["C04", "C01"])
+m("c04-eof-on-zero-len-only-once", "src/copy.rs", "                } else {\n                    break;\n                }\n            }\n            ret = async {src.frames", "                } else if sbuf.len() > 1 {\n                    break;\n                }\n            }\n            ret = async {src.frames", ["C04"])
+m("c16-no-terminated", "src/main.rs", "        ctx.write().await.set_state(ContextState::Terminated);", "", ["C16"])
+m("c16-swap-shutdown-states", "src/copy.rs", "                ctx.write().await.set_state(ContextState::ClientShutdown);", "                ctx.write().await.set_state(ContextState::ServerShutdown);", ["C16"])
+m("c16-count-minus-one", "src/copy.rs", "                    stat.incr_sent_bytes(len);\n                    #[cfg(feature = \"metrics\")]\n                    counter.inc_by(len as u64);\n                } else {\n                    break;\n                }\n            }\n            ret = async {src.frames", "                    stat.incr_sent_bytes(len - 1);\n                    #[cfg(feature = \"metrics\")]\n                    counter.inc_by(len as u64);\n                } else {\n                    break;\n                }\n            }\n            ret = async {src.frames", ["C16"])
+m("c16-error-text-dropped", "src/context.rs", "            .set_state(ContextState::ErrorOccured)\n            .set_error(format!(\"{} cause: {:?}\", error, error.cause));", "            .set_state(ContextState::ErrorOccured);", ["C16"])
+m("c16-early-data-uncounted", "src/copy.rs", "        if len > 0 {\n            client_stat.incr_sent_bytes(len);\n        }", "", ["C16"])
+
+# ---- C06
+m("c06-body-not-flushed", "src/common/http.rs", "        socket.write_all(body).await.context(\"write error\")?;\n        socket.flush().await.context(\"flush\")", "        socket.write_all(body).await.context(\"write error\")?;\n        Ok(())", ["C06"])
+m("c06-socks-reply-not-flushed", "src/common/socks.rs", "            _ => bail!(\"not supported version: {}\", self.version),\n        }?;\n        socket.flush().await.context(\"flush\")\n    }\n    pub async fn write_v4<IO: RW>(&self, socket: &mut IO) -> Result<(), Error> {", "            _ => bail!(\"not supported version: {}\", self.version),\n        }?;\n        Ok(())\n    }\n    pub async fn write_v4<IO: RW>(&self, socket: &mut IO) -> Result<(), Error> {", ["C06"])
+m("c06-on-connect-before-connect", "src/main.rs", "    if let Err(e) = connector.connect(state.clone(), ctx.clone()).await {", "    ctx.on_connect().await;\n    if let Err(e) = connector.connect(state.clone(), ctx.clone()).await {", ["C06"])
+m("c06-accept-2xx-3xx", "src/common/h11c.rs", "            if resp.code != 200 {\n                bail!(\"upstream server failure: {:?}\", resp);\n            }\n            ctx.write()", "            if resp.code >= 400 {\n                bail!(\"upstream server failure: {:?}\", resp);\n            }\n            ctx.write()", ["C06"])
+m("c06-socks-upstream-any-rep", "src/connectors/socks.rs", "        if resp.cmd != SOCKS_REPLY_OK {", "        if resp.cmd > 90 {", ["C06"])
+m("c06-deny-no-reply", "src/main.rs", "        info!(\"explicitly denied: {}\", ctx.to_string().await);\n        return ctx.on_error(err_msg(\"access denied\")).await;", "        info!(\"explicitly denied: {}\", ctx.to_string().await);\n        return;", ["C06"])
+m("c06-socks4-always-90", "src/common/socks.rs", "let cmd = if self.cmd == 0 { 90 } else { 91 }; //map v5 response code to v4", "let cmd = if self.cmd <= 1 { 90 } else { 91 }; //map v5 response code to v4", ["C06"])
+m("c06-bind-ignored", "src/listeners/socks.rs", "            SOCKS_CMD_BIND => {\n                ctx.on_error(err_msg(\"not supported\")).await;", "            SOCKS_CMD_BIND => {", ["C06"])
+# ---- C13
+m("c13-and-to-or", "src/copy.rs", "server_stat.is_timeout(idle_timeout) && client_stat.is_timeout(idle_timeout)", "server_stat.is_timeout(idle_timeout) || client_stat.is_timeout(idle_timeout)", ["C13"])
+m("c13-zero-not-disabled", "src/context.rs", "        if timeout.is_zero() {\n            return false;\n        }", "", ["C13"])
+m("c13-udp-uses-idle", "src/listeners/socks.rs", "                    .set_idle_timeout(state.timeouts.udp);", "                    .set_idle_timeout(state.timeouts.idle);", ["C13"])
+m("c13-reverse-udp-no-timeout", "src/listeners/reverse.rs", "                .set_idle_timeout(state.timeouts.udp)\n", "", ["C13"])
+m("c13-default-before-config", "src/main.rs", "        st_mut.timeouts = cfg.timeouts;\n        ctx_mut.default_timeout = st_mut.timeouts.idle;", "        ctx_mut.default_timeout = st_mut.timeouts.idle;\n        st_mut.timeouts = cfg.timeouts;", ["C13"])
+m("c13-ms-vs-s", "src/context.rs", "        now - last_read > timeout.as_millis() as u64", "        now - last_read > timeout.as_secs()", ["C13"])
+m("c13-double-timeout", "src/context.rs", "        Duration::from_secs(self.props.idle_timeout)", "        Duration::from_secs(self.props.idle_timeout * 2)", ["C13"])
+
 def run(name, file, old, new, props):
     path = os.path.join("/repo", file)
     src = open(path).read()
@@ -89,9 +120,13 @@ def run(name, file, old, new, props):
     try:
         for p in props:
             t0 = time.time()
-            r = subprocess.run(["/verif/check", p, "quick"], stdout=subprocess.PIPE, stderr=subprocess.STDOUT, text=True)
-            keys = [l.strip() for l in r.stdout.splitlines() if l.strip().startswith("sub=")]
-            res.append((p, r.returncode, round(time.time() - t0, 1), keys[:3]))
+            try:
+                r = subprocess.run(["/verif/check", p, "quick"], stdout=subprocess.PIPE, stderr=subprocess.STDOUT, text=True, timeout=900)
+                keys = [l.strip() for l in r.stdout.splitlines() if l.strip().startswith("sub=")]
+                res.append((p, r.returncode, round(time.time() - t0, 1), keys[:3]))
+            except subprocess.TimeoutExpired:
+                subprocess.run(["pkill", "-x", "vp-inproc"]); subprocess.run(["pkill", "-x", "vp-e2e"])
+                res.append((p, "TIMEOUT", round(time.time() - t0, 1), []))
     finally:
         open(path, "w").write(src)
     ok = all(rc == 1 for _, rc, _, _ in res)
